@@ -48,6 +48,21 @@ def run(ctx):
     _aggregator(ctx)
     _images(ctx)
     _cli(ctx)
+    # detection as used by the command-line checker must not forget an
+    # inspector that matched and then refused the stream: the image would be
+    # classified raw and accepted
+    from . import c03
+    rep.rule('R2.8', 'detection keeps counting a format whose inspector '
+             'matched and then failed (otherwise an image the inspector '
+             'refused is classified raw and passes)')
+    wcls = ctx.world.cls(M.MOD, 'InspectWrapper')
+    c03._table_case(ctx, wcls, None, ((False, True), (False, False),
+                                      (False, False)), True,
+                    faults={'qcow2': {0: 'ImageFormatError'}}, reads=1,
+                    rule='R2.8')
+    c03._table_case(ctx, wcls, None, ((True, True), (False, True),
+                                      (False, False)), True,
+                    faults={'vhd': {0: 'ValueError'}}, reads=1, rule='R2.8')
 
 
 # ------------------------------------------------------------------ R2.1
